@@ -191,9 +191,52 @@ func (e *verifierEngine) RunTargets(prop string, r *Report, rules ...string) {
 			r.Fail("UNRESOLVED", "-", t.Func, "target:"+t.ID, "-", fmt.Sprintf("anchor function resolves to %d instance(s), confirmed %d", len(fns), t.Instances))
 		}
 		for _, fn := range fns {
+			// an exported entry point that only forwards its parameters to an unexported implementation
+			// (func Verify(a, b, c) error { return verify(a, b, c) }) is analysed through the implementation
+			for d := 0; d < 2; d++ {
+				if impl := forwardsTo(fn); impl != nil {
+					fn = impl
+				} else {
+					break
+				}
+			}
 			e.runTarget(t, fn, prop, r)
 		}
 	}
+}
+
+// forwardsTo: fn consists of one call of a same-package function with exactly fn's parameters, in order, whose
+// results it returns unchanged.
+func forwardsTo(fn *ssa.Function) *ssa.Function {
+	if len(fn.Blocks) != 1 {
+		return nil
+	}
+	var call *ssa.Call
+	for _, ins := range fn.Blocks[0].Instrs {
+		switch x := ins.(type) {
+		case *ssa.Call:
+			if call != nil {
+				return nil
+			}
+			call = x
+		case *ssa.Return, *ssa.Extract, *ssa.DebugRef:
+		default:
+			return nil
+		}
+	}
+	if call == nil {
+		return nil
+	}
+	cal := call.Call.StaticCallee()
+	if cal == nil || cal.Blocks == nil || FuncPkg(cal) == nil || FuncPkg(fn) == nil || FuncPkg(cal).Path() != FuncPkg(fn).Path() || len(call.Call.Args) != len(fn.Params) {
+		return nil
+	}
+	for i, a := range call.Call.Args {
+		if a != fn.Params[i] {
+			return nil
+		}
+	}
+	return cal
 }
 
 func (e *verifierEngine) runTarget(t *vTarget, fn *ssa.Function, prop string, r *Report) {
@@ -472,7 +515,7 @@ func (e *verifierEngine) guard(t *vTarget, fn *ssa.Function, res *vpassResult, r
 	}
 	var fixers []fixer
 	for _, ev := range res.events {
-		if ev.Lifted != "" {
+		if ev.Lifted != "" && !(ev.Kind == "lenguard" && ev.PassBlk != nil && ev.Status == "must") {
 			continue
 		}
 		if ev.Kind == "lenguard" {
